@@ -8,7 +8,7 @@ from .c12 import check_column
 
 RULE = ("Cases: (exhaustive) every phase sequence of length 1..L over {0.1,1.5,3.1,4.7,6.2} (L=6 quick, "
         "8 thorough) x phase_edge in {pi/12,pi/6,pi/4,pi/2}; (mask) Hypothesis-drawn long/short phases x "
-        "phase_edge x boolean masks {none, random, block} x phase_step; (is_good) drawn single segments fed "
+        "phase_edge (incl. exactly 0) x phase_step (incl. exactly 0) x boolean masks {none, random, block} x phase_step; (is_good) drawn single segments fed "
         "to is_good; (container) Cycles(phase, use_cache in {True,False}).metrics['is_good'] per cycle. "
         "Oracle: a wrap-delimited segment must be labelled iff strictly increasing, 0<p[0]<edge, "
         "2pi-edge<p[-1]<2pi and mask all-true (boundary equalities are don't-care: docstring strict, code "
@@ -174,7 +174,8 @@ def mask_case(draw):
                        gens.monotone_cycles_phase(2, 8, 3, 30).map(negative_starts)))
     n = p.shape[0]
     kind = draw(st.sampled_from(['none', 'random', 'block', 'random']))
-    case = {'p': p, 'edge': draw(st.sampled_from(EDGES)), 'step': draw(st.sampled_from(STEPS))}
+    # a zero tolerance (no cycle can qualify) and a zero wrap threshold (every change of phase is a wrap) are valid values
+    case = {'p': p, 'edge': draw(st.sampled_from(EDGES + [0, 0.0])), 'step': draw(st.sampled_from(STEPS + [0, 0.0]))}
     if kind == 'random':
         k = draw(st.integers(0, 2**32 - 1))
         dens = draw(st.sampled_from([0.5, 0.9, 0.98]))
